@@ -104,7 +104,7 @@ func init() {
 		accepted := []any{}
 		r.do("Sign1Message.UnmarshalCBOR", func() {
 			var m cose.Sign1Message
-			if m.UnmarshalCBOR(b) != nil {
+			if viaRecv(b, m.UnmarshalCBOR) != nil {
 				return
 			}
 			accepted = append(accepted, "sign1")
@@ -121,7 +121,7 @@ func init() {
 		})
 		r.do("UntaggedSign1Message.UnmarshalCBOR", func() {
 			var m cose.UntaggedSign1Message
-			if m.UnmarshalCBOR(b) != nil {
+			if viaRecv(b, m.UnmarshalCBOR) != nil {
 				return
 			}
 			accepted = append(accepted, "sign1u")
@@ -132,7 +132,7 @@ func init() {
 		})
 		r.do("SignMessage.UnmarshalCBOR", func() {
 			var m cose.SignMessage
-			if m.UnmarshalCBOR(b) != nil {
+			if viaRecv(b, m.UnmarshalCBOR) != nil {
 				return
 			}
 			accepted = append(accepted, "sign")
@@ -152,7 +152,7 @@ func init() {
 		})
 		r.do("Signature.UnmarshalCBOR", func() {
 			var s cose.Signature
-			if s.UnmarshalCBOR(b) != nil {
+			if viaRecv(b, s.UnmarshalCBOR) != nil {
 				return
 			}
 			accepted = append(accepted, "sig")
@@ -167,7 +167,7 @@ func init() {
 		})
 		r.do("Countersignature.UnmarshalCBOR", func() {
 			var s cose.Countersignature
-			if s.UnmarshalCBOR(b) != nil {
+			if viaRecv(b, s.UnmarshalCBOR) != nil {
 				return
 			}
 			accepted = append(accepted, "csig")
@@ -184,7 +184,7 @@ func init() {
 		})
 		r.do("ProtectedHeader.UnmarshalCBOR", func() {
 			var h cose.ProtectedHeader
-			if h.UnmarshalCBOR(b) != nil {
+			if viaRecv(b, h.UnmarshalCBOR) != nil {
 				return
 			}
 			accepted = append(accepted, "prot")
@@ -192,7 +192,7 @@ func init() {
 		})
 		r.do("UnprotectedHeader.UnmarshalCBOR", func() {
 			var h cose.UnprotectedHeader
-			if h.UnmarshalCBOR(b) != nil {
+			if viaRecv(b, h.UnmarshalCBOR) != nil {
 				return
 			}
 			accepted = append(accepted, "unprot")
@@ -210,7 +210,7 @@ func init() {
 		})
 		r.do("Key.UnmarshalCBOR", func() {
 			var k cose.Key
-			if k.UnmarshalCBOR(b) != nil {
+			if viaRecv(b, k.UnmarshalCBOR) != nil {
 				return
 			}
 			accepted = append(accepted, "key")
